@@ -272,6 +272,7 @@ class Clause:
 
 class Unit:
     def __init__(self, name, prop, title=''):
+        self.loop_changed = set()
         self.name, self.prop, self.title = name, prop, title
         self.features = []
         self.outside_parts = ['use vstd::prelude::*;\n']
@@ -289,6 +290,8 @@ class Unit:
         self.enum_variants = {}   # enum name -> (variants present in the extracted enum, has VxOther)
 
     # ---------- raw text ----------
+    loop_changed = None
+
     def feature(self, *names):
         for n in names:
             if n not in self.features:
@@ -547,6 +550,12 @@ pub assume_specification [<{q} as PartialEq>::eq] (a: &{q}, b: &{q}) -> (r: bool
             pt = re.sub(r'^(mut|ref)\s+', '', src[L0['pat'][0]:L0['pat'][1]].decode().strip().lstrip('&').strip()) if L0['kind'] == 'for' else None
             now_loops.append(pt if pt and re.fullmatch(r'[A-Za-z_][A-Za-z0-9_]*', pt) else None)
         self.signatures[fid] = {'params': now_params, 'loops': now_loops}
+        # loop invariants are annotations of particular loops: when the function no longer has the loops the baseline recorded
+        # (a loop added, removed, or an iterator chain turned into a loop), the annotations do not carry over and a failing
+        # obligation of this function is 'cannot decide', not a violation
+        _b0 = base_signatures().get(fid)
+        if _b0 is not None and len(_b0.get('loops', [])) != len(now_loops):
+            self.loop_changed.add(fid)
         renames = {}
         bsig = base_signatures().get(fid)
         if bsig:
